@@ -47,6 +47,32 @@ def c05(cfg, prop="C05"):
 
         return replay
 
+    def rp_mod(kind, order):
+        def replay(model):
+            nHt, nU, nUi, nH = _numeric(P, model, callback=cb)
+            E0 = nH[P.zero_order]
+            nUs = {}
+            for oo, M in nU.items():
+                if sum(oo) == 0:
+                    continue
+                Mk = M.copy()
+                Mk[elim] = 0
+                nUs[oo] = E0 @ Mk - Mk @ E0
+            T = bd.np_cauchy([nUi, nH, nU], order)
+            T = np.zeros((N, N), dtype=complex) if T is None else T
+            corr = bd.np_cauchy([nUi, nUs], order)
+            if corr is not None:
+                T = T - corr
+            if kind.startswith("kept"):
+                A, B = T[kept], nHt[order][kept]
+            else:
+                A, B = T[elim], np.zeros(int(elim.sum()))
+            err = float(np.max(np.abs(A - B))) if np.size(A) else 0.0
+            sc = _scale(np.asarray(A), np.asarray(B))
+            return err > TOL * sc, {"kind": kind, "order": list(order), "max_abs_error": err, "scale": sc}
+
+        return replay
+
     bad = set()
     first = next((o for o in P.orders if sum(o) == 1), None)
     for o in P.orders:
@@ -76,6 +102,26 @@ def c05(cfg, prop="C05"):
                 rec.nontrivial = True
         if o == first and elim.any():
             rec.guard_twin("twin_U1_nonzero", dU.get(o), Z)
+    if mixed:
+        # Configurations in which the KNOWN defect (known_findings.json: X_S omits [H_0, U'_S]) masks the plain identity.
+        # What the shipped recurrences then compute exactly is  U_inv H U = H_tilde + U_inv [H_0, (U - 1)_S]  (derivation in
+        # DESIGN.md section 5); this defect-aware identity must still hold, so that any OTHER deviation in these
+        # configurations is reported as a violation and not hidden behind the known finding.
+        Us = bd.Series((N, N), P.nparams, {})
+        for o in P.orders:
+            if sum(o) == 0:
+                continue
+            M = dU.get(o).copy()
+            M[elim] = symc.lift(0)
+            Us.data[o] = symc.mm(P.H0, M) - symc.mm(M, P.H0)
+        for o in P.orders:
+            T = bd.cauchy([dUi, P.H, dU], o) - bd.cauchy([dUi, Us], o)
+            for kind, A, B in (("kept-modulo-known-defect", T[kept], dHt.get(o)[kept]), ("elim-modulo-known-defect", T[elim], None)):
+                if kind in bad or (kind.startswith("elim") and not elim.any()):
+                    continue
+                v = rec.oblige(f"{kind} order={o}", A, B, sig=_sig(cfg, kind) + f":order={sum(o)}", replay=rp_mod(kind, o))
+                if v == "sat":
+                    bad.add(kind)
     return rec
 
 
